@@ -104,6 +104,7 @@ type c14World struct {
 	evhs    []*TopicEventHandler
 	vals    map[string]bool
 	pups    []*vPuppet
+	comers  []*vPuppet
 	topics  []string
 	cancel  func(how string)
 	isDown  atomic.Bool
@@ -122,7 +123,7 @@ func (w *c14World) handle(t string) *Topic {
 var c14Ops = []string{
 	"join", "subscribe", "pssubscribe", "next", "cancelsub", "relay", "relaycancel", "publish", "publish_ready", "pspublish", "batch",
 	"regval", "unregval", "evh", "nextevt", "evhcancel", "listpeers", "tlistpeers", "gettopics", "blacklist", "direct", "undirect",
-	"topicclose", "setscore", "feedback", "publish_local",
+	"topicclose", "setscore", "feedback", "publish_local", "pattach", "pdetach",
 }
 
 func (w *c14World) do(op string, rnd func(int) int) {
@@ -281,7 +282,11 @@ func (w *c14World) do(op string, rnd func(int) int) {
 		if rnd(5) == 0 {
 			fn = c14DeafValidator(hook)
 		}
-		ps.RegisterTopicValidator(vt, fn, WithValidatorInline(rnd(3) == 0), WithValidatorTimeout(500*time.Millisecond))
+		vopts := []ValidatorOpt{WithValidatorInline(rnd(3) == 0)}
+		if rnd(2) == 0 {
+			vopts = append(vopts, WithValidatorTimeout(500*time.Millisecond))
+		}
+		ps.RegisterTopicValidator(vt, fn, vopts...)
 	case "unregval":
 		if rnd(4) == 0 {
 			t = "ready"
@@ -353,6 +358,20 @@ func (w *c14World) do(op string, rnd func(int) int) {
 			h.SetScoreParams(&TopicScoreParams{TopicWeight: 1, TimeInMeshWeight: 0.01, TimeInMeshQuantum: time.Second, TimeInMeshCap: 10,
 				InvalidMessageDeliveriesWeight: -1, InvalidMessageDeliveriesDecay: 0.5})
 		}
+	case "pattach", "pdetach":
+		// two puppets come and go during the run (stream opening and closing interleaves with everything else)
+		p := w.comers[rnd(len(w.comers))]
+		if op == "pattach" {
+			if w.r.n.ConnectNoWait(p.ID(), w.nd.ID()) == nil {
+				time.Sleep(time.Duration(rnd(30)) * time.Millisecond)
+				if _, err := p.Open(w.nd.ID()); err == nil {
+					p.Send(w.nd.ID(), vSubRPC(true, t))
+				}
+			}
+		} else {
+			w.r.n.Disconnect(w.nd.ID(), p.ID())
+			p.ForgetStreams()
+		}
 	case "feedback":
 		ps.PeerFeedback(t, w.pups[rnd(len(w.pups))].ID(), PeerFeedbackKind(rnd(2)))
 	}
@@ -372,6 +391,13 @@ func TestVerifC14Cancel(t *testing.T) {
 					pr = vAllGossipProtos[c.Intn(len(vAllGossipProtos))]
 				}
 				w.pups = append(w.pups, r.NewPuppet(fmt.Sprintf("p%d", i), pr, ""))
+			}
+			for i := 0; i < 2; i++ {
+				pr := FloodSubID
+				if router == "gossipsub" {
+					pr = vAllGossipProtos[c.Intn(len(vAllGossipProtos))]
+				}
+				w.comers = append(w.comers, r.NewPuppet(fmt.Sprintf("comer%d", i), pr, ""))
 			}
 			withDisc := c.Chance(0.4)
 			var disc *vDisc
@@ -459,7 +485,7 @@ func TestVerifC14Cancel(t *testing.T) {
 				}
 				total += len(plans[i])
 			}
-			mode := []string{"at_time", "before_call", "during_call", "in_validator", "at_time"}[c.Intn(5)]
+			mode := []string{"at_time", "before_call", "during_call", "in_validator", "at_time", "in_tracer", "in_tracer"}[c.Intn(7)]
 			cancelWorker, cancelStep := c.Intn(W), 0
 			cancelStep = c.Intn(len(plans[cancelWorker]))
 			cancelAt := time.Duration(c.Range(0, 900)) * time.Millisecond
@@ -475,6 +501,20 @@ func TestVerifC14Cancel(t *testing.T) {
 				}
 				// make sure a validator exists early
 				plans[0] = append([]step{{op: "regval", seed: 1}}, plans[0]...)
+			}
+			if mode == "in_tracer" {
+				// from inside a raw-tracer callback, i.e. inside the event loop (or a validation goroutine) at the very point
+				// where the library reports a new stream, a closed stream, a join, a delivery, ...
+				kind := []string{"newout", "newout", "closedout", "join", "leave", "deliver", "validate", "recv", "send", "graft", "reject"}[c.Intn(11)]
+				n := int64(c.Range(1, 4))
+				var seen atomic.Int64
+				hook := func(k string) {
+					if k == kind && seen.Add(1) == n {
+						w.cancel("in_tracer:" + kind)
+					}
+				}
+				w.nd.tr.hook.Store(&hook)
+				plans[0] = append([]step{{op: "pattach", seed: 7}}, plans[0]...)
 			}
 			// ---- background traffic from the puppets (keeps validations and deliveries in flight)
 			trafficCtx, stopTraffic := context.WithCancel(context.Background())
